@@ -145,9 +145,11 @@ def terms_of(v, width):
     return terms, const
 
 
-def check_decoders(chk, tu):
+def check_decoders(chk, tu, rule='R08.2', only=None):
     n = 0
     for fname, (width, signed, maxn) in sorted(LEB.items()):
+        if only is not None and fname not in only:
+            continue
         f = tu.functions.get(fname)
         chk.require(f is not None and astdb.fn_body(f) is not None, 'decoder %s not found' % fname)
         chk.fn(fname)
@@ -186,7 +188,7 @@ def check_decoders(chk, tu):
                 if ok and p.state['st']['pos'] == nbytes:
                     want.append((p, conts))
             label = '%s[n=%d]' % (fname, nbytes)
-            if not chk.expect(bool(want), 'R08.2', label + ':path',
+            if not chk.expect(bool(want), rule, label + ':path',
                               '%s has no path that consumes exactly %d bytes when the first %d have the continuation bit and the last does not '
                               '(%d paths explored): a %d-byte encoding is not accepted' % (fname, nbytes, nbytes - 1, len(paths), nbytes), site):
                 continue
@@ -194,7 +196,7 @@ def check_decoders(chk, tu):
                 if conts.get('b%d' % (nbytes - 1)) is True:
                     continue        # over-long encoding (continuation bit on the last allowed byte): not a valid encoding
                 n += 1
-                chk.expect(p.ret == nbytes, 'R08.2', label + ':count', '%s returns %r for a %d-byte encoding' % (fname, p.ret, nbytes), site)
+                chk.expect(p.ret == nbytes, rule, label + ':count', '%s returns %r for a %d-byte encoding' % (fname, p.ret, nbytes), site)
                 val = p.state['res']['v']
                 dec = terms_of(val, width) if not isinstance(val, int) else (set(), val)
                 sign_taken = None
@@ -204,13 +206,13 @@ def check_decoders(chk, tu):
                         sign_taken = cl[2]
                 exp_terms = {('b%d' % i, 0x7F, 7 * i) for i in range(nbytes) if 7 * i < width}
                 if dec is None:
-                    chk.fail('R08.2', label + ':value', '%s: decoded value has an unexpected shape for a %d-byte encoding: %r' % (fname, nbytes, val), site)
+                    chk.fail(rule, label + ':value', '%s: decoded value has an unexpected shape for a %d-byte encoding: %r' % (fname, nbytes, val), site)
                     continue
                 terms, const = dec
                 terms = {t for t in terms if t[2] < width}
                 exp_const = 0
                 if signed and 7 * nbytes < width:
-                    if not chk.expect(sign_taken is not None, 'R08.2', label + ':sign-test',
+                    if not chk.expect(sign_taken is not None, rule, label + ':sign-test',
                                       '%s does not test bit 6 of the last byte of a %d-byte encoding: negative numbers are not sign-extended' % (fname, nbytes), site):
                         continue
                     if sign_taken:
@@ -219,7 +221,7 @@ def check_decoders(chk, tu):
                     if sign_taken:
                         exp_const = None
                 ok = terms == exp_terms and (exp_const is not None and const == exp_const)
-                chk.expect(ok, 'R08.2', label + (':neg' if sign_taken else ':pos'),
+                chk.expect(ok, rule, label + (':neg' if sign_taken else ':pos'),
                            '%s decodes a %d-byte encoding (sign bit %s) to terms %r with constant 0x%X; the LEB128 definition gives %r with constant %s'
                            % (fname, nbytes, 'set' if sign_taken else 'clear/unsigned', sorted(terms), const, sorted(exp_terms),
                               'none (no extension at full width)' if exp_const is None else hex(exp_const)), site)
